@@ -236,7 +236,7 @@ def check_generate(ck, tmp, stream, c, mres=None, via="lib"):
     if mres is not None:
         compare(ck, stream, short, model_image(mres), ires, "GenMpi.mpi_generate")
     if fail:
-        return {"input": c, "observed": fail,
+        return {"input": dict(c, via=via), "observed": fail,
                 "expected": "[1, dp, iu, sv] + 0xFF*12 + vendor UUID + class UUID, padded with 0xFF to size, at address"}
     return None
 
@@ -258,7 +258,7 @@ def gen_cases(ck):
     for size in sizes:
         for a in (addresses(size) if ck.deep else rng.sample(addresses(size), 5)):
             cases.append(case_gen(rng.choice(VENDORS[:6]), rng.choice(CLASSES[:6]), a, size, rng.random() < .5, rng.random() < .5, rng.choice(SV)))
-    for _ in range(2000 if ck.deep else 60):
+    for _ in range(4000 if ck.deep else 400):
         size = rng.randrange(48, 4097)
         cases.append(case_gen(rng.choice(VENDORS) + str(rng.randrange(50)), rng.choice(CLASSES) + str(rng.randrange(50)),
                               rng.randrange(0, 2 ** 32 - size + 1), size, rng.random() < .5, rng.random() < .5, rng.choice(SV)))
@@ -300,7 +300,7 @@ def record_image(rng, address, size=48, real=None):
 def merge_scenarios(ck):
     """[(label, address, size, inputs | None)] — inputs are {addr: byte} images."""
     rng, out = ck.rng, []
-    n_rounds = 60 if ck.deep else 6
+    n_rounds = 150 if ck.deep else 20
     for rnd in range(n_rounds):
         slot = rng.choice([48, 48, 64, 100, 256])
         k = rng.choice([1, 2, 3, 4, 8])
@@ -351,7 +351,7 @@ def check_merge(ck, tmp, stream, label, address, size, inputs, mres=None, files=
     texts = files if files is not None else (None if inputs is None else [ihex.write_hex(d) for d in inputs])
     ires = core.Check.impl(impl_merge, tmp, address, size, texts, via)
     fail = oracle_merge(address, size, inputs or [], ires, os.path.exists(os.path.join(tmp, "merged.hex")))
-    inp = {"op": "merge", "label": label, "address": address, "size": size,
+    inp = {"op": "merge", "label": label, "address": address, "size": size, "via": via,
            "files": None if inputs is None else [[[s, d.hex()] for s, d in ihex.segments(m)] for m in inputs]}
     brief = {"label": label, "address": address, "size": size,
              "inputs": None if inputs is None else [[(hex(s), len(d)) for s, d in ihex.segments(m)][:4] for m in inputs]}
@@ -380,7 +380,7 @@ def pipeline_stream(ck, tmp):
     """generate -> merge on the tool's own files: up to 8 real records of one domain, merged through the library."""
     fails, rng = [], ck.rng
     reqs, metas = [], []
-    for rnd in range(12 if ck.deep else 3):
+    for rnd in range(40 if ck.deep else 6):
         k = rng.choice([2, 4, 8])
         slot = rng.choice([48, 64, 128])
         base = rng.choice([0x0E1EF000, 0x10000 - slot, 0xFFFFC0, 2 ** 32 - k * slot - 32])
@@ -402,7 +402,7 @@ def pipeline_stream(ck, tmp):
 def cli_stream(ck, tmp):
     """A sample through the real CLI in fresh subprocesses: generate x n, then merge of the files, one rejected merge."""
     fails, rng = [], ck.rng
-    for rnd in range(6 if ck.deep else 2):
+    for rnd in range(12 if ck.deep else 4):
         d = tempfile.mkdtemp(prefix="c12cli-", dir=tmp)
         slot = rng.choice([48, 64, 256])
         base = rng.choice([0x0E1EF000, 0x10000 - slot - 8, 0xFFFFF0])
@@ -486,6 +486,7 @@ def run(tier, seed):
                           "generated), cli (subprocess generate+merge). Every case runs on the implementation (library, main(), CLI) and on "
                           "the extracted regenerated model (images compared) and through the layout oracle; non-trivial = valid policy "
                           "(generate) or at least one input (merge); distinct by (stream, input)")
+        failing.sort(key=lambda f: len(repr(f["input"])))   # report the smallest failing inputs
         return ck.decide(failing, search=lambda: search(ck, tmp))
     finally:
         shutil.rmtree(tmp, ignore_errors=True)
@@ -529,11 +530,12 @@ def replay(path):
     try:
         ck = core.Check("C12", "quick", 0, runs=RUNS, units=UNITS)
         if inp["op"] in ("generate", "cli generate"):
-            c = {k: v for k, v in inp.items() if k != "op"}
-            f = check_generate(ck, tmp, "replay", dict(c, op="generate"))
+            c = {k: v for k, v in inp.items() if k not in ("op", "via")}
+            f = check_generate(ck, tmp, "replay", dict(c, op="generate"), via=inp.get("via", "main" if inp["op"].startswith("cli") else "lib"))
         else:
             files = None if inp["files"] is None else [ihex.from_segments([(s, bytes.fromhex(d)) for s, d in segs]) for segs in inp["files"]]
-            f = check_merge(ck, tmp, "replay", inp.get("label", ""), inp["address"], inp["size"], files, via="lib")
+            f = check_merge(ck, tmp, "replay", inp.get("label", ""), inp["address"], inp["size"], files,
+                            via=inp.get("via", "main" if inp["op"].startswith("cli") else "lib"))
         if f:
             print("REPRODUCED:", f["observed"])
             return 1
